@@ -38,7 +38,7 @@ inductive UNum : List Char → Prop
 
 /-- `w` matches the captured group `-?[\d.]+(?:[eE][-+]?\d+)?` of the long-format reader's numeric rows entirely: an unsigned
 numeral or `-` followed by one — CPython's `repr` / `"%d"` of EVERY finite number, negative ones and `-0.0` included
-(`-0` is written for −0.0).  Since fix A30 (c4606fd) the sign is inside the captured group on every numeric row (tier and
+(`-0` is written for −0.0).  Since fix A30 (818cdcd) the sign is inside the captured group on every numeric row (tier and
 entry `xmin`, `xmax`, `number`); before it the `-` was matched but not captured on the start rows (`-1.5` was read as `1.5`)
 and not matched at all on the `xmax` rows (`ParsingError`).  A `+` sign is matched by no pattern (`ParsingError`; CPython
 writes none). -/
@@ -2553,7 +2553,7 @@ theorem nlName_hyps : (∀ t ∈ nlNameTgL.tiers, NoKwLong t) ∧ (∀ t ∈ nlN
     simp only [texts, List.map_nil, List.mem_cons, List.not_mem_nil, or_false] at hs
     subst hs; decide
 
-/-- **multi-line names, regression for A32 (fixed, ae33f8b)**: a tier named `a⏎b` is written `name = "a⏎b"`; the name pattern
+/-- **multi-line names, regression for A32 (fixed, 2c24cb2)**: a tier named `a⏎b` is written `name = "a⏎b"`; the name pattern
 `name ?= ?"(.*)"\s*$` now has DOTALL (like `text` and `mark`) and the whole-file theorem covers the file: it is read back
 exactly.  Before the fix the pattern did not cross the line break: `ParsingError: Expected field in Textgrid missing.` on a file
 praatio itself had written, while the short and both JSON formats kept the name. -/
